@@ -61,12 +61,27 @@ func VH05a_cooked() {
 	c1, err := sock.OpenContext()
 	verif.Assert(err == nil, lab+"/open-context")
 	cs := []*sctx{{name: "sock", sock: sock}, {name: "ctx", c: c1}}
+	if verif.Param("script", 0) == 1 {
+		cs = cs[verif.Choice("on", 2):][:1]
+	}
 	var reqs []*reqrec
 	tag := byte(0)
 	rtag := byte(100)
 	sentBefore := func() int { return len(pipes[0].Sent) + len(pipes[1].Sent) }
+	// directed family (parameter "script"): request A arrives and is received, request B arrives (any connection,
+	// any routing depth) and is received too before A was answered, then one reply is sent: it answers B
+	var script []int
+	if verif.Param("script", 0) == 1 {
+		script = []int{0, 1, 0, 1, 2, 2}
+		E = len(script)
+	}
 	for e := 0; e < E; e++ {
-		ev := verif.Choice("ev", 5)
+		var ev int
+		if script != nil {
+			ev = script[e]
+		} else {
+			ev = verif.Choice("ev", 5)
+		}
 		if e == 0 {
 			verif.Assume(ev == 0)
 		}
@@ -102,15 +117,20 @@ func VH05a_cooked() {
 			p.Deliver(append(append([]byte{}, hdr...), tag))
 		case 1: // Recv on a context
 			s := cs[verif.Choice("ctx", len(cs))]
-			if s.rg != nil || s.cur != nil {
-				// a second Recv before replying abandons the request in RESPONDENT but not in REP;
-				// the property does not say which, so such histories are not judged
+			if s.rg != nil {
 				verif.Assume(false)
 			}
+			// a second Recv before replying: the context then answers its LAST received request (the earlier
+			// one is abandoned), with exactly that request's routing header
 			ss := s
 			s.rg = verif.Go("recv", func() { ss.rmsg, ss.rerr = ss.recvMsg() })
 		case 2: // Send a reply on a context
 			s := cs[verif.Choice("ctx", len(cs))]
+			if s.rg != nil && s.cur != nil {
+				// a Send while a further Recv is already waiting: RESPONDENT has abandoned the request at that
+				// point, REP has not; the property does not say which, so such histories are not judged
+				verif.Assume(false)
+			}
 			rtag++
 			n0 := sentBefore()
 			l0, l1 := len(pipes[0].Sent), len(pipes[1].Sent)
